@@ -20,6 +20,10 @@ type cfg14 struct {
 	w1, w2      []wop
 	updatesOnly bool
 	w1b         []wop // a second goroutine operating on t1 (Reset racing Remove/Add)
+	// missingOnly: only leaves the cache holds but the subscriber lacks count
+	// (an update that raced the Remove from another goroutine may legitimately
+	// be announced after the target delete and survive in the subscriber)
+	missingOnly bool
 }
 
 func configs14(tier string) []xplore.Config {
@@ -44,6 +48,10 @@ func configs14(tier string) []xplore.Config {
 	for _, w1b := range [][]wop{{{"remove", ""}}, {{"remove", ""}, {"add", ""}}} {
 		out = append(out, xplore.Config{Name: fmt.Sprintf("X=t1 W(t1)=reset || W'(t1)=%s W(t2)=upd a/b", scriptName(w1b)), Bound: bound - 1, Data: cfg14{w1: []wop{{"reset", ""}}, w2: []wop{{"upd", "a/b"}}, w1b: w1b}})
 	}
+	// Remove racing a re-Add followed by an update from another goroutine: if
+	// the re-added target ends up holding the leaf, the whole-target delete of
+	// the old incarnation must have been announced before that update
+	out = append(out, xplore.Config{Name: "X=t1 W(t1)=remove || W'(t1)=add;upd a/b W(t2)=upd a/b (no leaf of the re-added target may be missing)", Bound: bound, Data: cfg14{w1: []wop{{"remove", ""}}, w2: []wop{{"upd", "a/b"}}, w1b: []wop{{"add", ""}, {"upd", "a/b"}}, missingOnly: true}})
 	// a subscriber attaching at any point of a Reset (before, between the
 	// per-root steps, after): the deletes announced to the feed must cover
 	// whatever its walk showed it. Subscriptions on a/... only, so that the
@@ -122,7 +130,13 @@ func run14x(cfg xplore.Config, ch vrt.Chooser, trace bool) (xplore.Outcome, *vrt
 			} else {
 				rep, _ := replay(all.log)
 				want := w.expected(all.spec)
-				if renderMap(rep) != renderMap(want) {
+				if d.missingOnly {
+					for k, v := range want {
+						if strings.HasPrefix(k, "t1|") && !strings.HasPrefix(k, "t1|meta/") && rep[k] != v {
+							viol(&out, "delete-announced-after-readd", "Remove racing %s: the cache holds %s=%s for the re-added target but replaying the all-targets subscriber's responses yields %q (the old incarnation's whole-target delete was announced after the new one's update); log: %s", scriptName(d.w1b), k, v, rep[k], renderLog(all.log))
+						}
+					}
+				} else if renderMap(rep) != renderMap(want) {
 					viol(&out, "lifecycle-race-not-converged", "Reset racing %s on the same target: replaying the all-targets subscriber's responses yields\n  %s\nthe cache holds\n  %s\nlog: %s", scriptName(d.w1b), renderMap(rep), renderMap(want), renderLog(all.log))
 				}
 			}
